@@ -1024,6 +1024,10 @@ def compile_comprehension(compiler, expr, root, parts, final):
                     else asty.Global
                 )
                 stmts.append(unlocal_type(expr, names=assignment_names))
+                # Let the enclosing scopes see these names, too, so
+                # that a `let` further out can still rename them.
+                for i in range(len(assignment_names)):
+                    scope.parent.access(stmts[-1], i)
 
                 # create a fake assignment statement so python places these
                 # names in the immediately outer scope
@@ -1040,6 +1044,8 @@ def compile_comprehension(compiler, expr, root, parts, final):
                     ],
                     ctx=ast.Store(),
                 )
+                for name in assignments.elts:
+                    scope.parent.access(name)
                 if_body.append(
                     asty.Assign(
                         expr,
@@ -1100,7 +1106,10 @@ def compile_comprehension(compiler, expr, root, parts, final):
                 ).args.append(first_iter.force_expr)
             return ret + Result(expr = value)
 
-        # We can produce a real comprehension.
+        # We can produce a real comprehension. Python binds the targets
+        # of assignment expressions inside it in the enclosing scope,
+        # which needs to know about them.
+        scope.finalize()
         generators = []
         for tagname, v in parts:
             if tagname in ("for", "afor"):
